@@ -229,6 +229,17 @@ SAMPLER_TERMINAL = [
     {'s': '{#A=[<]NC([$R])C(=O)[>],#R=[$R]C[NH3+],#Q=[$R]CC(=O)[O-]}', 'terminal': ['$R'],
      'react': {'<': 0.3, '>': 0.3, '$R': 0.4}, 'start': 'A', 'wts': [150, 300]},
 ]
+# ':' (order 1.5) bonds between atoms that are NOT written aromatic, Kekule-written rings, and no lower-case atom
+# anywhere in the string (a shortcut that skips the aromaticity pass for "aliphatic" input would leave 1.5 orders)
+COLON_KEKULE = ['{[#A]}.{#A=CC:CC}', '{[#A]|3}.{#A=[>]C:C[<]}', '{[#A][#B]}.{#A=[$]CC(:O):O,#B=[$]C}',
+                '{[#A][#B]}.{#A=OC:C[$][$],#B=[$]N}', '{[#A]}.{#A=C1=CC=CC=C1}', '{[#A][#B]}.{#A=C1=CC=CC=C1[$],#B=[$]C}',
+                '{[#A]=[#B]}.{#A=[$]C=CC=[$],#B=[$]=CC=C[$]}', '{[#A]}.{#A=C:1:C:C:C:C:C1}', '{[#A]}.{#A=N:C}',
+                '{[#A]|2}.{#A=[$]C:C:C[$]}', '{[#A][#B]}.{#A=C1=CC=CN=C1[$],#B=[$]O}', '{[#A]}.{#A=O:C:O}',
+                '{[#A][#B]}.{#A=[$]C(:O)N,#B=[$]CC:C}', '{[#A]}.{#A=C1=CC=C2C=CC=CC2=C1}', '{[#A]}.{#A=C1=COC=C1}',
+                '{[#A][#B]}.{#A=C:C[$],#B=[$]C1=CC=CC=C1}', '{[#A]}.{#A=[NH3+]C:C}', '{[#A]}.{#A=C:N:C}']
+COLON_SAMPLER = [{'s': '{#A=[>]C:C[<]}', 'react': {'>': 0.5, '<': 0.5}},
+                 {'s': '{#A=[$]C:CC[$],#B=[$]C(:O)[$]}', 'react': {'$': 1.0}},
+                 {'s': '{#A=[$]CC[$],#K=[$]C1=CC=CC=C1}', 'react': {'$': 1.0}}]
 # falsy attribute values on hydrogen-bearing atoms (weight 0 / 0.0) and on explicit hydrogens
 ZERO_WEIGHT = ['{[#SP4]1[#SP4][#SP1r]1}.{#SP4=[OH;0.5][C;0.1][$]C[$]O,#SP1r=[$]OC[$]CO}',
                '{[#A][#B]}.{#A=CC[C;0][$],#B=[$][C;0]CO}', '{[#A][#B]}.{#A=CC[C;w=0][$],#B=[$]CO}',
@@ -274,8 +285,14 @@ def gen_case(rng):
         return {'kind': 'resolve', 'cls': 'aromatic-split', 's': rng.choice(AROM_SPLIT), 'legacy': True}
     if r < 0.86:
         return {'kind': 'resolve', 'cls': 'explicit-H', 's': rng.choice(EXPLICIT_H), 'legacy': True}
-    if r < 0.93:
+    if r < 0.91:
         return {'kind': 'resolve', 'cls': 'zero-weight', 's': rng.choice(ZERO_WEIGHT), 'legacy': True}
+    if r < 0.955:
+        if rng.random() < 0.25:
+            c = dict(rng.choice(COLON_SAMPLER))
+            c.update({'kind': 'sample', 'cls': 'colon-kekule-sampler', 'seed': rng.randint(0, 10 ** 6), 'w': rng.choice([40, 80, 120])})
+            return c
+        return {'kind': 'resolve', 'cls': 'colon-kekule', 's': rng.choice(COLON_KEKULE), 'legacy': True}
     if rng.random() < 0.5:
         c = dict(rng.choice(SAMPLER_TERMINAL))
         c.update({'kind': 'sample', 'cls': 'sampler-terminal', 'seed': rng.randint(0, 10 ** 6), 'w': rng.choice(c.pop('wts'))})
@@ -477,6 +494,8 @@ def py_holds_c09(before, final):
         b2 = sum(half(final.edges[n, m]) for m in heavy)
         if 2 * max(val + [0]) < b2:
             continue
+        if b2 % 2 and not d.get('aromatic', False):
+            return 2          # a left-over 1.5 order on a non-aromatic atom: the orders cannot add up
         v = next((x for x in val if b2 <= 2 * x), None)
         if v is None:
             continue
@@ -547,6 +566,8 @@ class C09(common.Prop):
         out.append({'kind': 'sample', 'cls': 'corpus', 's': '{#A=[$]CC[$],#B=[$]C(C)C[$]}', 'react': {'$': 1.0},
                     'seed': 1, 'w': 60})
         out += [{'kind': 'resolve', 'cls': 'corpus', 's': s, 'legacy': True} for s in ZERO_WEIGHT[:5]]
+        out += [{'kind': 'resolve', 'cls': 'corpus', 's': s, 'legacy': True} for s in COLON_KEKULE[:8]]
+        out.append(dict(COLON_SAMPLER[0], kind='sample', cls='corpus', seed=1, w=60))
         # histories: a disturbing call first, then the judged call in the same process
         out.append({'kind': 'resolve', 'cls': 'corpus+history', 's': '{[#A][#B]}.{#A=[$]CC[$],#B=[$]OC}', 'legacy': True,
                     'prelude': ['mass-plain']})
@@ -585,22 +606,22 @@ class C09(common.Prop):
             return {'skip': 'rebuild_h_atoms called %d times' % len(calls)}
         call = calls[0]
         before = call['before']
-        if call['args'] != ((), {}):
-            return {'skip': 'non-default arguments'}
+        # a call the model does not cover (other arguments, aromaticity pass not run) is not COMPARED with the
+        # model, but the molecule that comes back is still JUDGED
+        nocorr = call['args'] != ((), {}) or call['car'] == 'not called'
         if not in_table(before):
             return {'skip': 'element/charge outside the generated valence table'}
         graphs = [before] + [g for g in (call.get('car'), call.get('after')) if isinstance(g, nx.Graph)]
         if not all(modelable(g) for g in graphs):
             return {'skip': 'stereo annotation or non half-integral order (outside the model)'}
         out = {'before': lit.nxgraph(before),
-               'car': None if call['car'] is None else ('?' if call['car'] == 'not called' else lit.nxgraph(call['car'])),
+               'car': None if (call['car'] is None or call['car'] == 'not called') else lit.nxgraph(call['car']),
+               'nocorr': nocorr,
                'after': lit.obs_graph(call['after']) if 'after' in call else None,
                'exc': call.get('exc'), 'later_exc': exc,
                'final': lit.obs_graph(final) if final is not None else None,
                'summary': {'before': summarise(before), 'final': summarise(final)},
                'py_code': py_holds_c09(before, final) if final is not None else 0}
-        if out['car'] == '?':
-            return {'skip': 'correct_aromatic_rings was not called by rebuild_h_atoms'}
         return out
 
     def python_oracle(self, case, impl):
@@ -616,6 +637,8 @@ class C09(common.Prop):
             return 'helpers(' + ','.join('%s:%d' % kv for kv in sorted(impl['summary'].items())) + ')'
         if 'skip' in impl:
             return 'skipped:' + str(impl['skip'])
+        if impl.get('nocorr'):
+            return case['cls'] + ':not-compared(call outside the model)'
         if impl.get('exc'):
             return case['cls'] + ':raises-' + impl['exc']
         if impl.get('later_exc'):
@@ -627,13 +650,13 @@ class C09(common.Prop):
 
     def coq_case(self, case, impl):
         if 'helpers' in impl:
-            return ('{| c_skip := true; c_before := []; c_car := None; c_after := None; c_final := None; c_extra := %s |}'
+            return ('{| c_skip := true; c_before := []; c_car := None; c_after := None; c_final := None; c_extra := %s; c_nocorr := false |}'
                     % lit.lst(impl['helpers']))
         if 'skip' in impl:
-            return '{| c_skip := true; c_before := []; c_car := None; c_after := None; c_final := None; c_extra := [] |}'
-        return ('{| c_skip := false; c_before := %s; c_car := %s; c_after := %s; c_final := %s; c_extra := [] |}'
+            return '{| c_skip := true; c_before := []; c_car := None; c_after := None; c_final := None; c_extra := []; c_nocorr := false |}'
+        return ('{| c_skip := false; c_before := %s; c_car := %s; c_after := %s; c_final := %s; c_extra := []; c_nocorr := %s |}'
                 % (impl['before'], lit.opt(impl['car'], lambda x: x), lit.opt(impl['after'], lambda x: x),
-                   lit.opt(impl['final'], lambda x: x)))
+                   lit.opt(impl['final'], lambda x: x), lit.b(impl.get('nocorr', False))))
 
 
 PROP = C09()
